@@ -151,6 +151,7 @@ type pathRun struct {
 	funcs   map[*ssa.Function]*int
 	stubs   map[string]int
 	rtPanics []string
+	deadlockExcuse string // set by vpKnownDeadlock(name, true): a deadlock on this path is that known finding
 	softFailed bool    // a vpCheck failed on this path (the path went on)
 	softTerms  []*Term // conditions of the vpChecks passed on this path
 	observations []string
@@ -497,7 +498,7 @@ func (e *Engine) runPath(fn *ssa.Function, it workItem, solver *Solver) {
 		}
 	case "deadlock":
 		// every goroutine blocked and the harness not finished: a lost wake-up
-		e.recordFinding(r, "deadlock", "", r.model, detail)
+		e.recordFinding(r, "deadlock", r.deadlockExcuse, r.model, detail)
 	}
 	e.mu.Lock()
 	defer e.mu.Unlock()
